@@ -401,6 +401,28 @@ def guards_of(fn, block, _depth=0):
             if th:
                 res.extend(th); continue
         res.append((desc, pol, d))
+        # `match kind { Kind::A => .. }` where `kind` was built on this path by a (spliced-in) classifier: the arm taken names
+        # the aggregate that ran, so the conditions for building it held too
+        if desc[0] == "discr" and isinstance(pol, tuple) and pol[0] == "in" and len(pol[1]) == 1 and _depth < 6:
+            want = next(iter(pol[1]))
+            base = desc[1][0] if isinstance(desc[1], list) and desc[1] else None
+            if base is not None and len(desc[1]) == 1:
+                hits = []; other = False
+                work = [base]; seen_l = set()
+                while work:
+                    L_ = work.pop()
+                    if L_ in seen_l: continue
+                    seen_l.add(L_)
+                    for dd_ in local_defs(fn).get(L_, []):
+                        if dd_[0] == "s" and len(dd_[3]) == 1 and dd_[4][0] == "agg" and isinstance(dd_[4][1], dict) and dd_[4][1].get("variant"):
+                            if dd_[4][1]["variant"] == want: hits.append(dd_[1])
+                        elif dd_[0] == "s" and len(dd_[3]) == 1 and dd_[4][0] == "use" and dd_[4][1][0] == "c" and dd_[4][1][1].get("k") == "variant":
+                            if dd_[4][1][1].get("v") == want: hits.append(dd_[1])
+                        elif dd_[0] == "s" and len(dd_[3]) == 1 and dd_[4][0] == "use" and dd_[4][1][0] in ("cp", "mv") and len(dd_[4][1][1]) == 1:
+                            work.append(dd_[4][1][1][0])
+                        else: other = True
+                if len(hits) == 1 and not other:
+                    res.extend(guards_of(fn, hits[0], _depth=_depth + 1))
     return res
 
 def _thread_bool(fn, local, pol, depth):
